@@ -11,21 +11,32 @@ _HDIR = _os.path.join(_os.path.dirname(_os.path.dirname(_os.path.abspath(__file_
 HARNESS = {"src": "harness/c14.cpp", "repo_srcs": [_os.path.join(_HDIR, "c14_member.cpp"), _os.path.join(_HDIR, "c14_extra.cpp")], "flags": ["-g1"]}
 TIE = ("hand-written model (FcpptModel/Model/C14.lean: row-major storage, index_absolute / row-view index arithmetic, every "
        "operator as the init/fold the header writes) + differential correspondence against the real templates on long scalars, "
-       "static storage, row views and a buffer-view storage; the harness additionally recomputes every result naively on plain arrays")
+       "static storage, row views and a buffer-view storage; the harness additionally recomputes every result naively on plain arrays. "
+       "Member operators (+= -= *= =, scalar *=, writes through element / row references) are modelled as in-place updates of a memory "
+       "(FcpptModel/Model/C14/Member.lean) with operands that are references into it, and run on worlds in which every object can alias "
+       "every other (same object, rows of one matrix, overlapping views, scalar = element of the target)")
 RULE = ("trios M a b: digest over all 256 2x2 matrices C over {-1,0,1,2} of (AB)C, A(BC), A(B+C), AB+AC, (A+B)C, AC+BC for the 2x2 "
         "matrices number a, b; all 65536 (a,b) = all 256^3 triples (static storage, both tiers; buffer-view storage: thorough all, "
         "quick a seeded sample of pairs). pairs M a: digest over all b of AB, (AB)^T, B^T A^T, A+B, A-B, det(AB), det A, det B, ==. "
         "sq: determinant, adjugate, A adj A, adj A A, inverse, identity for every 2x2 matrix and random 1x1..4x4 with entries in [-9,9]. "
         "mat/mul/mv/del/vec/cross/builders/bits: seeded random matrices (1x1 .. 4x4, 2x3, 3x2, 3x4, 4x3, 1x4, 4x1) and vectors/dims of "
-        "dimension 1-4 with entries in [-9,9] in every instantiated storage combination. evaluations = matrix triples / pairs / single "
+        "dimension 1-4 with entries in [-9,9] in every instantiated storage combination. vecs/crs/sqs/mvs: digests of the vec / cross / sq / mv "
+        "lines over a full small domain (all pairs of vectors and dims over {-1,0,1,2}, all 3x3 over {-1,0,1}, all 2x3 x 3-vectors). "
+        "mem/mems: member operators on a world (static vectors A B, static matrices M P, a buffer with mutable / read-only views of vectors, "
+        "matrices and rows): every statement target x operand x operator (+= -= *= = ctor, scalar *= with every element of every object, set), "
+        "digest over all a in {-1,0,1,2}^C and a set of b; the result of a line is every cell of the world afterwards. nb/md/tp/inf: vector o dim, "
+        "contents, is_quadratic, to_dim, to_vector, unit, mod, ceil_div_signed, transform_point/direction, infinity_norm. "
+        "evaluations = matrix triples / pairs / single "
         "operand tuples; an op is non-trivial unless all its operands are zero; distinct = distinct op lines.")
 ASSUMPTIONS = [
     "scalars are exact integers: the C++ side uses long with |entries| <= 1000 (asserted by harness and driver), so no result overflows; UBSan would report one",
     "fcppt::array::object<T,N> / init / map / apply / push_back are index-wise (Vector.ofFn); fcppt::algorithm::fold / all_of over int_range_count<N> visit 0..N-1 in order",
     "std::lexicographical_compare by its standard specification; integer / truncates towards zero (Int.tdiv)",
     "a math object is its storage: static_storage, matrix::detail::row_view (offset = index * columns) and a buffer view are read only through operator[] below storage_size",
+    "objects in memory: a static storage is its array of cells, a view refers to cells of another object; fcppt::algorithm::loop over int_range_count<N> runs 0..N-1 in order; "
+    "a by-value parameter is copied at the call; the implicit copy assignment of a class copies its members (row_view: reference + offset)",
 ]
-TRUSTED = ["harness/c14.cpp (incl. its buffer_view storage and the naive reference computations) and the digest/line protocol (vh.hpp, Proto.lean)",
+TRUSTED = ["harness/c14.cpp, c14_member.cpp, c14_extra.cpp (incl. their buffer-view storages const_view / mut_view and the naive reference computations) and the digest/line protocol (vh.hpp, Proto.lean)",
            "Mathlib v4.33: Matrix, det, adjugate, mulVec, dotProduct, crossProduct and the theorems about them used in FcpptProofs/C14",
            "g++ 12 + ASan/UBSan as witness for memory safety / absence of overflow of the instantiations on the exercised inputs"]
 
@@ -180,17 +191,17 @@ def systematic_batches(rng, thorough):
             for lr in modes:
                 ias = range(4 ** n) if (thorough or n < 4) else sorted({r.below(256) for _ in range(32)} | {0, 85, 255})
                 ops += [f"vecs {kind} {lr} {n} {ia}" for ia in ias]
-    yield Batch("vec-all-pairs", ops, exhaustive=True,
+    yield Batch("vec-all-pairs", ops, exhaustive=thorough,
                 note="every operator / comparison / cast of the vec line on ALL pairs of vectors and dims over {-1,0,1,2}, dimension 1-3 "
                      "(dimension 4: all 65536 pairs thorough, 35 x 256 quick), every storage combination")
     ops = [f"crs {lr} {ia}" for lr in ("ss", "rr", "bb", "sr", "rb", "bs") for ia in range(64)]
     yield Batch("cross-all-pairs", ops, exhaustive=True, note="cross, dot, Lagrange identity on all 4096 pairs of 3-vectors over {-1,0,1,2}, six storage combinations")
     ops = [f"sqs s {a}" for a in range(81)] + [f"sqs b {a}" for a in (range(81) if thorough else sorted({r.below(81) for _ in range(20)}))]
-    yield Batch("3x3-all-trits", ops, exhaustive=True, note="determinant, adjugate, A adj A, adj A A, inverse of ALL 19683 3x3 matrices over {-1,0,1} (static; buffer view: all thorough, sample quick)")
+    yield Batch("3x3-all-trits", ops, exhaustive=thorough, note="determinant, adjugate, A adj A, adj A A, inverse of ALL 19683 3x3 matrices over {-1,0,1} (static; buffer view: all thorough, sample quick)")
     ops = [f"mvs s s {a}" for a in range(4096)]
     for mm, vm in (("s", "b"), ("s", "r"), ("b", "s"), ("b", "b"), ("b", "r")):
         ops += [f"mvs {mm} {vm} {a}" for a in (range(4096) if thorough else sorted({r.below(4096) for _ in range(200)}))]
-    yield Batch("mv-2x3-all", ops, exhaustive=True, note="matrix * vector for ALL 2x3 matrices and 3-vectors over {-1,0,1,2} (static; other storage combinations: all thorough, sample quick)")
+    yield Batch("mv-2x3-all", ops, exhaustive=thorough, note="matrix * vector for ALL 2x3 matrices and 3-vectors over {-1,0,1,2} (static; other storage combinations: all thorough, sample quick)")
     # == / != of matrices that differ in exactly one entry, every position, every shape
     ops = []
     for (rr, cc) in MAT_SHAPES:
@@ -470,7 +481,11 @@ MANIFEST = {
                    "all N); associativity, distributivity, (AB)^T = B^T A^T, det(AB) = det A det B and A adj A = det A * 1 follow for all "
                    "sizes; dot/cross/length_square, builders, accessors, casts and comparisons are proved component-wise. The model is tied "
                    "to the code by a differential correspondence that is exhaustive over all 256^3 triples of 2x2 matrices over {-1,0,1,2} "
-                   "and seeded random for 3x3/4x4/non-square matrices and vectors of dimension 1-4, on static, row-view and buffer-view storage."),
+                   "and seeded random for 3x3/4x4/non-square matrices and vectors of dimension 1-4, on static, row-view and buffer-view storage. "
+                   "The member operators (+= -= *= =, scalar *=) are proved equal to the free operators on the values before the call under "
+                   "every aliasing the code supports (characterised exactly: noClobber_iff), for an aliased scalar without any condition; they are "
+                   "tied to the code by exhaustive single- and two-statement scenarios over every target x operand x operator of a world in which "
+                   "every object can alias every other."),
     "level_note": ("Trusted: Lean kernel + propext/Classical.choice/Quot.sound; Mathlib's definitions of det/adjugate; the hand-written "
                    "model's fidelity outside the exercised inputs; harness and digest protocol; long arithmetic without overflow on the "
                    "exercised inputs (UBSan). No sorry/axiom/native_decide."),
